@@ -31,7 +31,7 @@ def c09(ck, replay=None):
         ck.trap(goal, 'BatchWorker', bw_cfg(1, 3, {2}, {1}, [goal]))
     ck.trap('Trap_TwoWorkersCalled', 'BatchWorker', bw_cfg(2, 3, {2}, {0}, ['Trap_TwoWorkersCalled']))
     rnd = random.Random(ck.seed * 1000003 + 61)
-    scs = BB.gen_scenarios(rnd, 250 if thorough else 60, max_items=6 if thorough else 5)
+    scs = BB.gen_scenarios(rnd, 1000 if thorough else 60, max_items=6 if thorough else 5)
     items, n = [], 0
     for sc in scs:
         for j in range(8 if thorough else 5):
